@@ -26,7 +26,8 @@ class CollProperty:
                 sc["cons"].append(dict(id=wid * 10 + 3, src=wid, every=1))
             if with_lazy and rng.random() < 0.6:
                 sc["cons"].append(dict(id=wid * 10 + 4, src=wid, every=rng.choice((2, 3))))
-            if with_mirror or rng.random() < 0.3:
+            # (a window below a dictionary loses its early pushes in capture_delta: finding F12, owned by C20 - no mirror here)
+            if with_mirror or (rng.random() < 0.3 and shape != "TSDW"):
                 sc["mirrors"].append(dict(id=wid * 10 + 5, src=wid))
                 sc["cons"].append(dict(id=wid * 10 + 6, src=wid * 10 + 5, every=1))
             wid += 1
@@ -58,9 +59,9 @@ class C04(CollProperty):
     quick_runs = 1500
     quick_budget_s = 150
     thorough_budget_s = 900
-    rule = ("1-3 scripted writers per run over 16 time-series shapes (TS<Int>, TS<Str>, SIGNAL, TSS, TSD, TSL, TSB, TSW and the nestings TSD<TSB>, TSD<TSD>, "
-            "TSD<TSS>, TSL<TSS>, TSD<Str,TSL>, TSB{TS,TSS}) - an erased writer applying seeded canonical deltas through apply_delta and typed writers using "
-            "the authoring API's own mutators; per cycle: one write, several writes, child-only writes, no write, invalidation, key removal - each "
+    rule = ("1-3 scripted writers per run over 19 time-series shapes (TS<Int>, TS<Str>, SIGNAL, TSS, TSD, TSL, TSB, TSW and the nestings TSD<TSB>, TSD<TSD>, "
+            "TSD<TSS>, TSL<TSS>, TSD<Str,TSL>, TSD<TSW>, TSB{TS,TSS}, TSB{TS,TSL}, TSB{TS,TSB}) - an erased writer applying seeded canonical deltas through apply_delta and typed writers using "
+            "the authoring API's own mutators (incl. dictionary entries written through their child outputs); per cycle: one write, several writes, child-only writes, no write, invalidation, key removal - each "
             "observed by 2-4 consumers: active consumers at different ranks and an always-awake probe whose input is passive + Unchecked and which "
             "wakes itself every cycle, so flags are also read in the cycles where nothing happened. Oracle (write-history model): modified <=> the "
             "producer wrote in this cycle; last_modified_time = latest write; valid from the first write until an invalidation; every consumer's "
